@@ -912,6 +912,9 @@ impl<'a> Interp<'a> {
                     self.last_fail = Some(Why::Plain);
                     return Err(());
                 }
+                if x.tag % 3 == 0 {
+                    return Ok(Resp { events: vec![], data: None });
+                }
                 Ok(Resp { events: vec![Event::new("xmod").add_attribute("tag", x.tag.to_string())], data: Some(format!("x{}", x.tag).into_bytes()) })
             }
             CosmosMsg::Wasm(WasmMsg::Execute { contract_addr, msg, funds }) => {
